@@ -626,3 +626,31 @@ func NumberExact() *lts.LTS {
 	b.L.Start = start
 	return b.L
 }
+
+// StringContent: the bytes between the quotes of a well-formed string token: (raw | escape)*, accepted at end of input only.
+func StringContent() *lts.LTS {
+	b := NewB("R-string(content)")
+	body := b.S("CONTENT/BODY")
+	esc := b.S("CONTENT/ESC")
+	u := []int{b.S("CONTENT/U1"), b.S("CONTENT/U2"), b.S("CONTENT/U3"), b.S("CONTENT/U4")}
+	b.on(body, lts.Of('"'), lts.Term{Kind: lts.Exit, OK: false, Err: "unescaped quote inside content"})
+	b.move(body, lts.Of('\\'), esc)
+	b.on(body, Ctl, lts.Term{Kind: lts.Exit, OK: false, Err: "control byte in string"})
+	b.move(body, lts.Full(), body)
+	b.eof(body, true)
+	b.move(esc, Esc, body)
+	b.move(esc, lts.Of('u'), u[0])
+	b.rest(esc, "bad escape")
+	b.eof(esc, false)
+	for i := 0; i < 4; i++ {
+		nx := body
+		if i < 3 {
+			nx = u[i+1]
+		}
+		b.move(u[i], Hex, nx)
+		b.rest(u[i], "bad hex digit")
+		b.eof(u[i], false)
+	}
+	b.L.Start = body
+	return b.L
+}
